@@ -434,3 +434,94 @@ theorem genPos_nonCol : ∀ l : Path, GenPos l = true → NonCol l
         · exact ih a b d ha hb hd hab had hbd
 
 end GeomV.C13
+
+namespace GeomV.C13
+open GeomV GeomV.C13.Spec
+
+/-! ### what `Spec.segsMeet` means for segments in general position -/
+
+theorem sgn_ne_of_mul_neg {x y : Rat} (h : x * y < 0) : (sgn x != sgn y) = true := by
+  have hx : x ≠ 0 := by intro h0; rw [h0] at h; simp at h
+  have hy : y ≠ 0 := by intro h0; rw [h0] at h; simp at h
+  exact (sgn_ne_iff hx hy).mpr h
+
+/-- For two segments none of whose endpoints is collinear with the other segment, `segsMeet` holds
+exactly when the closed segments have a common point `a + s(b-a) = c + t(d-c)`, `s, t ∈ [0,1]`. -/
+theorem segsMeet_iff (a b c d : P)
+    (h1 : orient a b c ≠ 0) (h2 : orient a b d ≠ 0) (h3 : orient c d a ≠ 0) (h4 : orient c d b ≠ 0) :
+    segsMeet a b c d = true ↔
+      ∃ s t : Rat, 0 ≤ s ∧ s ≤ 1 ∧ 0 ≤ t ∧ t ≤ 1 ∧ segPoint a b s = segPoint c d t := by
+  obtain ⟨ax, ay⟩ := a
+  obtain ⟨bx, b_y⟩ := b
+  obtain ⟨cx, cy⟩ := c
+  obtain ⟨dx, dy⟩ := d
+  simp only [orient] at h1 h2 h3 h4
+  -- K = d0×d1, A = E×d1, B = E×d0 with d0 = b-a, d1 = d-c, E = c-a
+  have e1 : (bx - ax) * (cy - ay) - (b_y - ay) * (cx - ax) = -((cx - ax) * (b_y - ay) - (cy - ay) * (bx - ax)) := by ring
+  have e2 : (bx - ax) * (dy - ay) - (b_y - ay) * (dx - ax) =
+      ((bx - ax) * (dy - cy) - (b_y - ay) * (dx - cx)) - ((cx - ax) * (b_y - ay) - (cy - ay) * (bx - ax)) := by ring
+  have e3 : (dx - cx) * (ay - cy) - (dy - cy) * (ax - cx) = (cx - ax) * (dy - cy) - (cy - ay) * (dx - cx) := by ring
+  have e4 : (dx - cx) * (b_y - cy) - (dy - cy) * (bx - cx) =
+      ((cx - ax) * (dy - cy) - (cy - ay) * (dx - cx)) - ((bx - ax) * (dy - cy) - (b_y - ay) * (dx - cx)) := by ring
+  simp only [segsMeet, orient]
+  rw [e1] at h1; rw [e2] at h2; rw [e3] at h3; rw [e4] at h4
+  rw [e1, e2, e3, e4]
+  generalize hK : (bx - ax) * (dy - cy) - (b_y - ay) * (dx - cx) = K at h2 h4 ⊢
+  generalize hA : (cx - ax) * (dy - cy) - (cy - ay) * (dx - cx) = A at h3 h4 ⊢
+  generalize hB : (cx - ax) * (b_y - ay) - (cy - ay) * (bx - ax) = B at h1 h2 ⊢
+  have z : ∀ x : Rat, x ≠ 0 → (sgn x == 0) = false := by
+    intro x hx
+    cases h : (sgn x == 0) with
+    | false => rfl
+    | true => exact absurd ((sgn_eq_zero_iff _).mp h) hx
+  simp only [z _ h1, z _ h2, z _ h3, z _ h4, Bool.false_and, Bool.or_false]
+  have hBne : B ≠ 0 := by intro h; apply h1; rw [h]; simp
+  clear e1 e2 e3 e4
+  constructor
+  · intro h
+    simp only [Bool.and_eq_true] at h
+    have p12 := (sgn_ne_iff h1 h2).mp h.1
+    have p34 := (sgn_ne_iff h3 h4).mp h.2
+    have hKne : K ≠ 0 := by
+      intro h0; rw [h0] at p12
+      nlinarith [mul_self_nonneg B]
+    have hAK : A - K ≠ 0 := h4
+    have hBK : B - K ≠ 0 := by intro h0; apply h2; linarith
+    have uA := (param_in_unit_iff hKne h3 hAK).mpr p34
+    have uB := (param_in_unit_iff hKne hBne hBK).mpr (by nlinarith)
+    simp only [not_or, not_lt] at uA uB
+    refine ⟨A / K, B / K, uA.1, uA.2, uB.1, uB.2, ?_⟩
+    simp only [segPoint, Pt.mk.injEq]
+    constructor
+    · rw [← hA, ← hB] ; field_simp; rw [← hK]; ring
+    · rw [← hA, ← hB] ; field_simp; rw [← hK]; ring
+  · rintro ⟨s, t, s0, s1, t0, t1, hp⟩
+    simp only [segPoint, Pt.mk.injEq] at hp
+    obtain ⟨hx, hy⟩ := hp
+    have hEx : cx - ax = s * (bx - ax) - t * (dx - cx) := by linarith
+    have hEy : cy - ay = s * (b_y - ay) - t * (dy - cy) := by linarith
+    have hAs : A = s * K := by rw [← hA, ← hK, hEx, hEy]; ring
+    have hBt : B = t * K := by rw [← hB, ← hK, hEx, hEy]; ring
+    have hKne : K ≠ 0 := by intro h0; apply h3; rw [hAs, h0]; simp
+    have hK2 : 0 < K * K := mul_self_pos.mpr hKne
+    have hs0 : s ≠ 0 := by intro h0; apply h3; rw [hAs, h0]; simp
+    have hs1 : s ≠ 1 := by intro h0; apply h4; rw [hAs, h0]; ring
+    have ht0 : t ≠ 0 := by intro h0; apply hBne; rw [hBt, h0]; simp
+    have ht1 : t ≠ 1 := by intro h0; apply h2; rw [hBt, h0]; ring
+    have hs : s * (s - 1) < 0 := by
+      have a1 : 0 < s := lt_of_le_of_ne s0 (Ne.symm hs0)
+      have a2 : s < 1 := lt_of_le_of_ne s1 hs1
+      nlinarith
+    have ht : t * (t - 1) < 0 := by
+      have a1 : 0 < t := lt_of_le_of_ne t0 (Ne.symm ht0)
+      have a2 : t < 1 := lt_of_le_of_ne t1 ht1
+      nlinarith
+    have q34 : A * (A - K) < 0 := by
+      have : A * (A - K) = (K * K) * (s * (s - 1)) := by rw [hAs]; ring
+      rw [this]; exact mul_neg_of_pos_of_neg hK2 hs
+    have q12 : -B * (K - B) < 0 := by
+      have : -B * (K - B) = (K * K) * (t * (t - 1)) := by rw [hBt]; ring
+      rw [this]; exact mul_neg_of_pos_of_neg hK2 ht
+    simp [sgn_ne_of_mul_neg q12, sgn_ne_of_mul_neg q34]
+
+end GeomV.C13
